@@ -39,3 +39,7 @@ func GoStart(uint64) {}
 
 // GoEnd is called last thing in a spawned goroutine.
 func GoEnd() {}
+
+// GoDone is GoEnd for goroutines wrapped by the simulation's source rewriting: it is deferred as
+// func() { GoDone(recover()) }.
+func GoDone(interface{}) {}
